@@ -671,6 +671,13 @@ def run_seqs(sh, r, w, count):
             if r.random() < 0.5:
                 a, b = b, a
             sa, sb = seq_src(a), seq_src(b)
+            if r.random() < 0.15:
+                # both operands are the SAME value object (an alias): comparison is by value, so the answers must be
+                # those of two separately built equal sequences (a NaN inside still makes it unequal to itself)
+                b, sb = a, sa
+                sh.count("seqs:aliased-operands")
+                batch.append((a, b, sa, sb, "(\\x -> (\\a, b -> [a, b, %s])(x, x))(%s)" % (", ".join(cell_parts("a", "b")), sa)))
+                continue
             batch.append((a, b, sa, sb, "(\\a, b -> [a, b, %s])(%s, %s)" % (", ".join(cell_parts("a", "b")), sa, sb)))
         done += len(batch)
         evs = core.eval_all(w, [c[4] for c in batch], jid="c08s")
